@@ -35,6 +35,9 @@ type Broker struct {
 	log      []Req
 	written  int // bytes of responses written so far
 	srv      net.Conn
+	hold     int      // >0: collect this many responses before writing any (several requests in flight)
+	holdCut  int      // cut position over the concatenation of the held frames (<0: none)
+	pending  [][]byte
 	done     chan struct{}
 }
 
@@ -51,6 +54,14 @@ func Start(topic string, versions map[int16]int16) (*kafka.Conn, *Broker) {
 func (b *Broker) Push(key int16, r Resp) {
 	b.mu.Lock()
 	b.script[key] = append(b.script[key], r)
+	b.mu.Unlock()
+}
+
+// Hold makes the broker read n requests before it writes any response; the n response frames are then written back to
+// back, cut after `cut` bytes of their concatenation (cut < 0 or beyond the end: not at all).
+func (b *Broker) Hold(n, cut int) {
+	b.mu.Lock()
+	b.hold, b.holdCut, b.pending = n, cut, nil
 	b.mu.Unlock()
 }
 
@@ -140,6 +151,21 @@ func (b *Broker) serve() {
 			resp = Resp{Body: ApiVersionsBody(0, b.versions), Cut: -1}
 		}
 		f := Frame(r.ID, resp.Body)
+		b.mu.Lock()
+		if b.hold > 0 {
+			b.pending = append(b.pending, f)
+			if len(b.pending) < b.hold {
+				b.mu.Unlock()
+				continue
+			}
+			f = nil
+			for _, p := range b.pending {
+				f = append(f, p...)
+			}
+			resp.Cut = b.holdCut
+			b.hold, b.pending = 0, nil
+		}
+		b.mu.Unlock()
 		cut := resp.Cut >= 0 && resp.Cut < len(f)
 		if cut {
 			f = f[:resp.Cut]
